@@ -140,6 +140,9 @@ class Gen:
     def cond(self, d, no_int_test=False):
         """a condition, or a value used as one (truth test)"""
         r = self.rng
+        if r.random() < 0.07:                                     # negated truth test: NumericMixin.negate / StringMixin.negate
+            ty = r.choice(['int', 'str', 'bool', 'bool'])
+            return ('not', self.val(ty, min(d - 1, 1), True))
         k = r.random()
         if d <= 0: k = k * 0.62
         if k < 0.30:
